@@ -9,6 +9,7 @@ import (
 	"runtime"
 	"slices"
 	"strings"
+	"time"
 
 	"golang.org/x/tools/go/ssa"
 
@@ -242,6 +243,11 @@ func (m *Machine) runFrame(fr *frame, stop *ssa.BasicBlock) bool {
 			if m.curSteps > m.MaxSteps {
 				m.incomplete("step budget exceeded")
 				panic(pathEnd{kind: "budget", msg: "steps"})
+			}
+			if m.curSteps&0x3fff == 0 && !m.Deadline.IsZero() && time.Now().After(m.Deadline) {
+				m.incomplete("wall-limit: task stopped at the per-task wall-clock limit")
+				m.stopTask = true
+				panic(pathEnd{kind: "budget", msg: "wall"})
 			}
 			if p := instr.Pos(); p != token.NoPos {
 				fr.curPos = p
@@ -883,6 +889,7 @@ func (m *Machine) Explore(fn *ssa.Function, args []value) (res RunResult) {
 	m.Stats = Stats{}
 	m.Reached = map[string]int{}
 	m.Incomplete = nil
+	m.stopTask = false
 	m.sharedHits = nil
 	m.sharedSeen = map[string]bool{}
 	m.sharedOn = m.shared != nil && m.MonitorShared
@@ -892,6 +899,13 @@ func (m *Machine) Explore(fn *ssa.Function, args []value) (res RunResult) {
 	for {
 		m.runPath(fn, args)
 		m.Stats.Paths++
+		if !m.stopTask && !m.Deadline.IsZero() && time.Now().After(m.Deadline) {
+			m.incomplete("wall-limit: task stopped at the per-task wall-clock limit")
+			m.stopTask = true
+		}
+		if m.stopTask {
+			break
+		}
 		if len(m.Findings) > 40 {
 			m.incomplete("stopped after 40 findings")
 			break
@@ -1097,7 +1111,6 @@ func (m *Machine) simpleFunc(f *ssa.Function, depth int) bool {
 	m.simpleFn[f] = ok
 	return ok
 }
-
 
 const gfType = "github.com/makiuchi-d/gozxing/common/reedsolomon.GenericGF"
 
